@@ -5,16 +5,15 @@ correspondence streams of `harness/lattices/toric3dcode.py`) is a well-formed co
 all stabilizer generators commute, the logical operators commute with the stabilizers and satisfy the
 pairing table, `n = 3·Lx·Ly·Lz`, `k = 3`, and `get_deformation` follows the `XZZX` rule.
 
-Not proved for all sizes: the rank clause
-
-    rank (stabilizer_matrix (lattice Lx Ly Lz)) = n − k = 3·Lx·Ly·Lz − 3
-
-(the 4·Lx·Ly·Lz generators satisfy Lx·Ly·Lz + 3 independent relations: the product of all vertex
-operators, and for every cube the product of its six faces, of which all but …); it is covered per
-instance by the kernel-checked tables of `Properties/C01.lean`, and `C01.rank_le` gives `≤` from the
-clauses proved here.
+The rank clause is proved for all sizes at the operator level (`rank_family`): an explicit family
+of `n − k = 3·Lx·Ly·Lz − 3` distinct generators (all vertices but the origin; the xz / yz faces
+below the top layer plus a spanning tree of top-layer vertical faces; the xy faces of the layer
+`z = 0` but one) is GF(2)-independent (no non-empty sub-family has even X- and Z-parity on every
+location).  With `C01.rank_upper_bound` (commutation + pairing force rank ≤ n − k, every code) the
+rank is exactly `n − k`; the translation of `OpsIndep` into `Indep` on BSF rows is the operator/BSF
+bridge (`Proofs/OpComm.lean`), not repeated here.
 -/
-import PanqecVerif.Proofs.LatToric3DCodePair
+import PanqecVerif.Proofs.LatToric3DCodeRank
 
 namespace Panqec.C01Toric3DCode
 open Panqec.Cubic3D Panqec.Toric3DCode
@@ -79,6 +78,21 @@ theorem n_stabilizers_formula (Lx Ly Lz : Nat) :
 theorem k_value (Lx Ly Lz : Nat) : (lattice Lx Ly Lz).toCodeData.k = 3 := by
   simp only [Lattice.toCodeData, CodeData.k, lattice_logX]; rfl
 
+/-- The rank clause for every supported size: `rankFamily` (see `Proofs/LatToric3DCodeRank.lean`)
+    is a list of `n − k` distinct stabilizer locations whose operators are GF(2)-independent: no
+    non-empty sub-family multiplies to the identity (even X-parity and even Z-parity on every
+    location). -/
+theorem rank_family (Lx Ly Lz : Nat) (hLx : 2 ≤ Lx) (hLy : 2 ≤ Ly) (hLz : 2 ≤ Lz) :
+    ∃ B : List Coord, B.Nodup ∧ (∀ s ∈ B, s ∈ (lattice Lx Ly Lz).stabs) ∧
+      B.length = (lattice Lx Ly Lz).toCodeData.n - (lattice Lx Ly Lz).toCodeData.k ∧
+      OpsIndep (B.map (lattice Lx Ly Lz).getStab) := by
+  refine ⟨rankFamily Lx Ly Lz, rankFamily_nodup hLx hLy hLz, ?_, ?_, ?_⟩
+  · rw [lattice_stabs]; exact rankFamily_sub hLx hLy hLz
+  · rw [k_value]
+    simp only [Lattice.toCodeData, CodeData.n, lattice_qubits]
+    exact rankFamily_length hLx hLy hLz
+  · rw [lattice_getStab]; exact rankFamily_indep hLx hLy hLz
+
 /-- CSS structure for every supported size: a stabilizer location is a `'vertex'` whose operator carries only Z
     (on exactly 6 qubits) or a `'face'` whose operator carries only X (on exactly 4 qubits). -/
 theorem stabilizer_shape (Lx Ly Lz : Nat) (hLx : 2 ≤ Lx) (hLy : 2 ≤ Ly) (hLz : 2 ≤ Lz) {s : Coord}
@@ -138,6 +152,7 @@ theorem deformation_perm {name : String} {axis : Option String} {loc : Coord} {m
 example : (lattice 2 3 4).WF := wf 2 3 4 (by decide) (by decide) (by decide)
 example : (lattice 2 3 4).CommPair := commPair 2 3 4 (by decide) (by decide) (by decide)
 example : (lattice 2 3 4).toCodeData.n = 72 := n_formula 2 3 4
+example : (rankFamily 2 3 4).length = 69 := by decide +kernel
 example : getStab 2 2 2 [0, 0, 0] =
     [([3, 0, 0], .Z), ([1, 0, 0], .Z), ([0, 3, 0], .Z), ([0, 1, 0], .Z), ([0, 0, 3], .Z),
      ([0, 0, 1], .Z)] := by decide +kernel
